@@ -66,7 +66,7 @@ def analyse_all_closure(F, clo, map_term, weight_term):
         if not (direct[0] == "field" and P.strip(direct[1]) == ("param", 1)):
             return "captured weight not recognised"
         w = capture(clo, direct[2])
-        if P.strip(w) != P.strip(weight_term):
+        if P.strip(P.narrow_variants(P.strip(w))) != P.strip(P.narrow_variants(P.strip(weight_term))):
             return "the captured weight is not the probe's weight"
         return None
     inner = r[2][1]
@@ -88,7 +88,7 @@ def analyse_all_closure(F, clo, map_term, weight_term):
     if not (outer_cap[0] == "field" and P.strip(outer_cap[1]) == ("param", 1)):
         return "captured weight not recognised"
     w = capture(clo, outer_cap[2])
-    if P.strip(w) != P.strip(weight_term):
+    if P.strip(P.narrow_variants(P.strip(w))) != P.strip(P.narrow_variants(P.strip(weight_term))):
         return "the captured weight is not the probe's weight"
     return None
 
